@@ -1,0 +1,12 @@
+//go:build verif
+
+package gov
+
+// VerifCloseLeaked closes the store handle that Close() leaves open, so that a
+// harness process running many short-lived nodes does not accumulate descriptors.
+func (ctrler *GovCtrler) VerifCloseLeaked() {
+	if ctrler.frozenLedger != nil {
+		_ = ctrler.frozenLedger.Close()
+		ctrler.frozenLedger = nil
+	}
+}
